@@ -25,6 +25,9 @@ CONSTANTS
   JumpToFirstAvailable = FALSE
   ReportOnlyIfBitSet = FALSE
   ResendWithoutCheck = FALSE
+  RejoinAtIndex = FALSE
+  DropPausePair = FALSE
+  TrackRepeat = FALSE
 SPECIFICATION Spec
 VIEW View
 INVARIANTS C03_NoLostWake
